@@ -42,6 +42,11 @@ pub enum Op {
     Setup { docs: Vec<Option<bool>> },
     /// the request sequences of the concurrent clients
     Clients { seqs: Vec<Vec<Req>> },
+    /// after the clients: requests whose caller stops waiting while they are still queued (a client
+    /// that disconnects or times out). The actor is kept busy by a subscriber whose channel is full;
+    /// meanwhile a local write and a set-sync are queued and abandoned; later requests have to
+    /// reflect them.
+    Abandoned,
 }
 
 pub struct C14 {
@@ -162,6 +167,11 @@ impl Property for C14 {
                     Req::Remote { n: 0, a: 0, key: b"k".to_vec(), c: Some(0), ts: 5 }, Req::Close { n: 0 },
                 ]] },
             ]),
+            ("abandoned-requests-are-applied".into(), vec![
+                Op::Setup { docs: vec![Some(true), None, None] },
+                Op::Clients { seqs: vec![vec![Req::Open { n: 0, sync: false, sub: false }, Req::State { n: 0 }]] },
+                Op::Abandoned,
+            ]),
             ("sync-sticky-and-gate".into(), vec![
                 Op::Setup { docs: vec![Some(true), None, None] },
                 Op::Clients { seqs: vec![vec![
@@ -198,7 +208,11 @@ impl Property for C14 {
         let nclients = rng.range(1, 3);
         let max = if thorough { 20 } else { 12 };
         let seqs = (0..nclients).map(|c| (0..rng.range(2, max)).map(|_| self.gen_req(rng, c)).collect()).collect();
-        vec![Op::Setup { docs }, Op::Clients { seqs }]
+        let mut ops = vec![Op::Setup { docs }, Op::Clients { seqs }];
+        if !self.cap_mode && !self.removal_mode && rng.chance(1, 5) {
+            ops.push(Op::Abandoned);
+        }
+        ops
     }
     fn execute(&self, ops: &[Op]) -> anyhow::Result<Vec<Line>> {
         let rt = tokio::runtime::Builder::new_current_thread().enable_time().build()?;
@@ -223,6 +237,7 @@ impl Property for C14 {
                     }
                 }
                 Op::Clients { seqs: s } => seqs = s.clone(),
+                Op::Abandoned => {}
             }
         }
         let handle = SyncHandle::spawn(store, None, "c14".into());
@@ -231,10 +246,10 @@ impl Property for C14 {
         let log: Arc<Mutex<Vec<(usize, usize, String)>>> = Default::default(); // (client, idx, model command)
         let results: Arc<Mutex<Vec<Vec<Option<String>>>>> = Arc::new(Mutex::new(seqs.iter().map(|s| vec![None; s.len()]).collect()));
         let keys = &self.keys;
+        // channels of subscribers are kept alive until the end of the case
+        let keep: Arc<Mutex<Vec<async_channel::Receiver<iroh_docs::sync::Event>>>> = Default::default();
         let res: anyhow::Result<()> = rt.block_on(async {
             let mut tasks = vec![];
-            // channels of subscribers are kept alive until the end
-            let keep: Arc<Mutex<Vec<async_channel::Receiver<iroh_docs::sync::Event>>>> = Default::default();
             for (ci, seq) in seqs.iter().cloned().enumerate() {
                 let handle = handle.clone();
                 let log = log.clone();
@@ -377,8 +392,16 @@ impl Property for C14 {
         // the recorded queue order with each request's reply
         let order = log.lock().unwrap().clone();
         let results = results.lock().unwrap().clone();
-        for (ci, i, cmd) in &order {
-            let out = results[*ci][*i].clone().unwrap_or_else(|| "no-reply".into());
+        let mut flat: Vec<(String, String)> = order.iter().map(|(ci, i, cmd)| (cmd.clone(), results[*ci][*i].clone().unwrap_or_else(|| "no-reply".into()))).collect();
+        if ops.iter().any(|o| matches!(o, Op::Abandoned)) {
+            let extra = rt.block_on(abandoned_gadget(&handle, &self.keys))?;
+            flat.extend(extra.lines);
+            for l in extra.oracles {
+                lines.push(l);
+            }
+        }
+        for (cmd, out) in &flat {
+            let out = out.clone();
             lines.push(Line::model(cmd.clone(), out.clone()));
             // specification (C07): a local write or a secret-key export succeeds iff a write
             // capability was imported for the document since it was (re-)created
@@ -428,6 +451,9 @@ impl Property for C14 {
                 }
             }
             if let Some(doc) = doc {
+                if out == "abandoned" {
+                    continue;
+                }
                 let writable = if out.starts_with("inserted") || out == "notinserted" || out.starts_with("secret") {
                     Some("1")
                 } else if out == "err:read-only" {
@@ -509,4 +535,86 @@ impl Property for C14 {
         let clients = ops.iter().map(|o| if let Op::Clients { seqs } = o { seqs.len() } else { 0 }).max().unwrap_or(0);
         clients >= 2 || lines.iter().filter(|l| l.op.starts_with("act 1 close") && l.imp == "ok 1").count() >= 1
     }
+}
+
+
+struct Gadget {
+    lines: Vec<(String, String)>,
+    oracles: Vec<Line>,
+}
+
+/// see `Op::Abandoned`
+async fn abandoned_gadget(handle: &SyncHandle, keys: &Keys) -> anyhow::Result<Gadget> {
+    use std::time::Duration;
+    let ns = &keys.namespaces[0];
+    let nsid = ns.id();
+    let nsh = hex(nsid.as_bytes());
+    let author = &keys.authors[0];
+    let mut g = Gadget { lines: vec![], oracles: vec![] };
+    let opened = match handle.open(nsid, OpenOpts::default()).await { Ok(()) => "ok".to_string(), Err(e) => err_kind(&e) };
+    g.lines.push((format!("act 1 open {nsh} 0 0"), opened.clone()));
+    if opened != "ok" {
+        return Ok(g);
+    }
+    let entry = |key: &[u8]| make_entry(ns, author, key, Some(0), NOW);
+    let (hash, len) = content(0);
+    // a subscriber whose channel holds one event
+    let (tx, rx) = async_channel::bounded::<iroh_docs::sync::Event>(1);
+    g.lines.push((format!("act 1 sub {nsh}"), match handle.subscribe(nsid, tx.clone()).await { Ok(()) => "ok".into(), Err(e) => err_kind(&e) }));
+    // the first write fills the channel (if the document is writable)
+    let w1 = match handle.insert_local(nsid, author.id(), b"zz-g1".to_vec().into(), hash, len).await { Ok(()) => "inserted".to_string(), Err(e) => err_kind(&e) };
+    g.lines.push((format!("act 1 localq {}", honest_fp_tok(&entry(b"zz-g1"))), w1.clone()));
+    if w1 != "inserted" {
+        // read-only: nothing blocks the actor; the abandoned requests are still requests
+        drop(rx);
+        return Ok(g);
+    }
+    // the second write makes the actor wait for room in the channel
+    let w2 = {
+        let handle = handle.clone();
+        let id = author.id();
+        tokio::spawn(async move { handle.insert_local(nsid, id, b"zz-g2".to_vec().into(), hash, len).await.map_err(|e| format!("{e:#}")) })
+    };
+    tokio::time::sleep(Duration::from_millis(30)).await;
+    // queued behind it, and given up by their callers
+    let abandoned_write = tokio::time::timeout(Duration::from_millis(30), handle.insert_local(nsid, author.id(), b"zz-g3".to_vec().into(), hash, len)).await;
+    let abandoned_sync = tokio::time::timeout(Duration::from_millis(30), handle.set_sync(nsid, true)).await;
+    let really_abandoned = abandoned_write.is_err() && abandoned_sync.is_err();
+    // now the subscriber reads
+    let drainer = tokio::spawn(async move {
+        let mut n = 0usize;
+        while let Ok(Ok(_)) = tokio::time::timeout(Duration::from_secs(5), rx.recv()).await {
+            n += 1;
+            if n >= 3 {
+                break;
+            }
+        }
+        (n, rx)
+    });
+    let w2 = w2.await.map_err(|e| anyhow::anyhow!("writer: {e}"))?;
+    g.lines.push((format!("act 1 localq {}", honest_fp_tok(&entry(b"zz-g2"))), match w2 { Ok(()) => "inserted".into(), Err(s) => format!("err:{s}") }));
+    g.lines.push((format!("actdrop 1 localq {}", honest_fp_tok(&entry(b"zz-g3"))), "abandoned".into()));
+    g.lines.push((format!("actdrop 1 setsync {nsh} 1"), "abandoned".into()));
+    // later requests reflect the abandoned ones
+    let got = match handle.get_exact(nsid, author.id(), b"zz-g3".to_vec().into(), false).await {
+        Ok(Some(e)) => format!("some {}", with_fp(stored_tok(&e), &e)),
+        Ok(None) => "none".into(),
+        Err(e) => err_kind(&e),
+    };
+    g.lines.push((format!("act 1 getexact {nsh} {} {} 0", hex(author.id().as_bytes()), hex(b"zz-g3")), got.clone()));
+    let state = match handle.get_state(nsid).await { Ok(s) => format!("state {} {} {}", s.sync as u8, s.subscribers, s.handles), Err(e) => err_kind(&e) };
+    let (_n, rx) = drainer.await.map_err(|e| anyhow::anyhow!("drainer: {e}"))?;
+    g.lines.push((format!("act 1 state {nsh}"), state.clone()));
+    if really_abandoned {
+        g.oracles.push(Line::oracle(
+            "sconst abandoned-requests-are-reflected-by-later-replies",
+            if got.starts_with("some") && state.starts_with("state 1") { "abandoned-requests-are-reflected-by-later-replies".to_string() } else { format!("later-replies-miss-abandoned-requests:{}:{}", got.split(' ').next().unwrap_or(""), state.replace(' ', "-")) },
+        ));
+    }
+    // leave the document as the clients left it, but for one more handle that is released here
+    let _ = handle.unsubscribe(nsid, tx).await;
+    g.lines.push((format!("act 1 unsub {nsh}"), "ok".into()));
+    drop(rx);
+    g.lines.push((format!("act 1 close {nsh}"), match handle.close(nsid).await { Ok(b) => format!("ok {}", b as u8), Err(e) => err_kind(&e) }));
+    Ok(g)
 }
